@@ -14,6 +14,8 @@ pub const PLAIN_KEYS: &[&str] = &[
     // look-alikes that only a Unicode normalisation would identify (precomposed / decomposed, compatibility
     // characters), case variants, and long names
     "e\u{301}", "\u{c5}", "\u{212b}", "A\u{30a}", "\u{df}", "ss", "SS", "\u{131}", "i", "I",
+    // noncharacters and the ends of the planes (allowed unescaped in names)
+    "\u{ffff}", "\u{fffe}", "\u{fdd0}", "\u{10ffff}", "\u{1fffe}x",
     "kkkkkkkkkkkkkkkkkkkkkkkkkkkkkkkkkkkkkkkkkkkkkkkkkkkkkkkkkkkkkkkkkkkkkk", "\u{e9}\u{e9}\u{e9}\u{e9}\u{e9}\u{e9}\u{e9}\u{e9}\u{e9}\u{e9}\u{e9}\u{e9}\u{e9}\u{e9}\u{e9}\u{e9}\u{e9}\u{e9}\u{e9}\u{e9}\u{e9}\u{e9}\u{e9}\u{e9}\u{e9}\u{e9}\u{e9}\u{e9}\u{e9}\u{e9}\u{e9}\u{e9}\u{e9}\u{e9}\u{e9}\u{e9}\u{e9}\u{e9}\u{e9}\u{e9}",
 ];
 
@@ -25,6 +27,8 @@ pub const SPECIAL_KEYS: &[&str] = &[
     "\u{e9}\u{e9}\\x", "\u{263a}\\", "\u{1d11e}'s", "\u{e9}\"\u{e9}", "\u{3000}\n\u{3000}", "\u{1f600}\\\u{1f600}\\",
     // a quote at the start only
     "'tis", "\"x", "'\u{e9}",
+    // a backslash in front of a solidus (each may or must be escaped: `\\\/`, `\\/`)
+    "dir\\/file", "\\/", "a\\/\\/b",
 ];
 
 #[derive(Clone, Debug)]
@@ -716,18 +720,47 @@ pub fn gen_regex_test<'a>(src: &mut Src, root: &'a J, cur: Option<&Node<'a>>, cf
     let re = regexo::gen_pattern(src);
     let pat = regexo::render(&re);
     let name = if src.bool() { "match" } else { "search" };
-    let subj = Arg::Q(gen_sing(src, root, cur, cfg).to_query());
+    // subject: mostly a singular query from `@` (sometimes from `$`), now and then a literal; pattern:
+    // mostly the generated literal, now and then a string of the document reached from `@` or `$`
+    // (every combination of "uses the current node" / "does not" for the two arguments)
+    let subj = if src.chance(1, 12) {
+        Arg::Lit(Lit::Str(StrLit::plain(*src.pick(&["a", "ab", "abc", "b", ""]))))
+    } else {
+        Arg::Q(gen_sing(src, root, cur, cfg).to_query())
+    };
+    let pattern = match src.weighted(&[76, 12, 12]) {
+        0 => Arg::Lit(Lit::Str(spell_str(src, &pat, cfg.free_lit_escapes))),
+        1 => Arg::Q(Query { abs: false, segs: vec![] }),
+        _ => Arg::Q(gen_sing(src, root, cur, cfg).to_query()),
+    };
     Func {
         name: name.into(),
-        args: vec![subj, Arg::Lit(Lit::Str(spell_str(src, &pat, cfg.free_lit_escapes)))],
+        args: vec![subj, pattern],
     }
+}
+
+/// a call of one of the library's documented extension functions; arguments are literals or singular
+/// queries (zero or one node)
+pub fn gen_ext_test<'a>(src: &mut Src, root: &'a J, cur: Option<&Node<'a>>, cfg: &GenCfg) -> Func {
+    let name = *src.pick(&["in", "nin", "none_of", "any_of", "subset_of"]);
+    let mut arg = |src: &mut Src| {
+        if src.chance(1, 6) {
+            Arg::Lit(gen_lit(src, cfg))
+        } else {
+            Arg::Q(gen_sing(src, root, cur, cfg).to_query())
+        }
+    };
+    let a = arg(src);
+    let b = arg(src);
+    Func { name: name.into(), args: vec![a, b] }
 }
 
 /// `levels`: how deep the logical structure may still nest
 pub fn gen_expr<'a>(src: &mut Src, root: &'a J, cur: Option<&Node<'a>>, cfg: &GenCfg, fdepth: usize, levels: usize) -> Expr {
     let wl = if levels > 0 { 8 } else { 0 };
     let wr = if cfg.regex { 8 } else { 0 };
-    match src.weighted(&[35, 28, wl, wl, wl, wl, wr]) {
+    let we = if cfg.ext_funcs { 6 } else { 0 };
+    match src.weighted(&[35, 28, wl, wl, wl, wl, wr, we]) {
         0 => gen_cmp(src, root, cur, cfg, fdepth),
         1 => {
             let q = gen_filter_query(src, root, cur, cfg, fdepth);
@@ -757,8 +790,12 @@ pub fn gen_expr<'a>(src: &mut Src, root: &'a J, cur: Option<&Node<'a>>, cfg: &Ge
                     .collect(),
             )
         }
-        _ => {
+        6 => {
             let f = gen_regex_test(src, root, cur, cfg);
+            Expr::Test(src.chance(1, 4), Box::new(TestE::F(f)))
+        }
+        _ => {
+            let f = gen_ext_test(src, root, cur, cfg);
             Expr::Test(src.chance(1, 4), Box::new(TestE::F(f)))
         }
     }
